@@ -243,6 +243,27 @@ def assignment_rule(prog, rep):
         it = norm(lp.iter)
         d = single_def(fi, it) if isinstance(lp.iter, ast.Name) else lp.iter
         ok = ok and d is not None and norm(d) == "query.split(';')"
+        exits = [n for n in ast.walk(lp) if isinstance(n, (ast.Break, ast.Return))]
+        rep.check(not exits and not lp.orelse, "ASSIGN", fi.short, "every statement is executed", "no break / return inside the statement loop", f"the statement loop is left early (line {exits[0].lineno if exits else lp.lineno}): statements after that point are never executed (a later assignment to the same variable, or a later error, is lost)", fi.loc(exits[0] if exits else lp))
+        # the only statements skipped are the empty ones
+        g = cfg_of(fi)
+        if calls_p and len(calls_p) == 1:
+            pn = g.node_of(calls_p[0])
+            head = g.node_of(lp)
+            from ..cfg import truth
+
+            def _edge(u, v, lab):
+                if v == pn:
+                    return False
+                if lab and lab[0] == "cond":
+                    t = truth(lab, st)
+                    if t is False or norm(lab[1]) in (f"{st} == ''", f"len({st}) == 0") and lab[2] is True or norm(lab[1]) in (f"{st} != ''", f"len({st}) > 0") and lab[2] is False:
+                        return False  # the statement is empty on this edge
+                return True
+
+            r = g.reach_filtered(g.node_of(lp.body[0]), _edge) if lp.body else set()
+            back = [n for n in r if n == head]
+            rep.check(not back, "ASSIGN", fi.short, "only empty statements are skipped", "the loop head is reached again without parsing only when the statement is empty", "a non-empty statement can be skipped without being parsed and interpreted", fi.loc(lp))
     rep.check(ok, "ASSIGN", fi.short, "parse then interpret, per statement", "", why, fi.loc())
     ii = prog.func("interpret", "aw_query.query2")
     rep.check([norm(s) for s in ii.node.body if not isinstance(s, ast.Expr)] == ["namespace[var.name] = val.interpret(datastore, namespace)"], "ASSIGN", ii.short, "assignment", "namespace[var.name] = val.interpret(...)", "an assignment statement does not bind the variable to the value of its right-hand side", ii.loc())
@@ -264,6 +285,141 @@ def assignment_rule(prog, rep):
     rep.check(ok, "ASSIGN", pf.short, "split at the first '='", "line[:i] / line[i+1:]", "a statement is not split into variable and value at its first '='", pf.loc())
 
 
+def _inj_cond(test, fns):
+    """(which, polarity) when `test` asks whether the wrapped function has a Datastore / TNamespace annotated parameter"""
+    if isinstance(test, ast.UnaryOp) and isinstance(test.op, ast.Not):
+        r = _inj_cond(test.operand, fns)
+        return (r[0], not r[1]) if r else None
+    if isinstance(test, ast.Name):
+        for fn in fns:
+            d = single_def(fn, test.id)
+            if d is not None:
+                return _inj_cond(d, fns)
+        return None
+    if isinstance(test, ast.Compare) and len(test.ops) == 1 and isinstance(test.ops[0], (ast.In, ast.NotIn)) and isinstance(test.left, ast.Name) and test.left.id in ("Datastore", "TNamespace"):
+        c = test.comparators[0]
+        if isinstance(c, ast.Name):
+            for fn in fns:
+                d = single_def(fn, c.id)
+                if d is not None:
+                    c = d
+                    break
+        t = norm(c)
+        if ".annotation" in t and "parameters" in t:
+            return ("ds" if test.left.id == "Datastore" else "ns", isinstance(test.ops[0], ast.In))
+    return None
+
+
+def _wrapper_fold(g, h):
+    """evaluate the registry wrapper's argument shuffling for the four (datastore annotated?, namespace annotated?) cases"""
+    a = g.node.args
+    if [x.arg for x in a.args] != ["datastore", "namespace"] or a.vararg is None or a.vararg.arg != "args":
+        return f"wrapper signature is {norm(a)}"
+    out = {}
+
+    def ev_tuple(e, cur):
+        if isinstance(e, ast.Name) and e.id == "args":
+            return list(cur)
+        if isinstance(e, ast.Name) and e.id in ("datastore", "namespace"):
+            return None
+        if isinstance(e, ast.Subscript) and isinstance(e.value, ast.Name) and e.value.id == "args" and isinstance(e.slice, ast.Slice):
+            lo = e.slice.lower.value if isinstance(e.slice.lower, ast.Constant) else (0 if e.slice.lower is None else None)
+            if lo is None or e.slice.upper is not None or e.slice.step is not None or lo > len(cur) - 1:
+                return None
+            return list(cur[lo:])
+        if isinstance(e, ast.Tuple):
+            res = []
+            for x in e.elts:
+                if isinstance(x, ast.Starred):
+                    v = ev_tuple(x.value, cur)
+                    if v is None:
+                        return None
+                    res += v
+                elif isinstance(x, ast.Name) and x.id in ("datastore", "namespace"):
+                    res.append(x.id)
+                elif isinstance(x, ast.Subscript) and isinstance(x.value, ast.Name) and x.value.id == "args" and isinstance(x.slice, ast.Constant) and isinstance(x.slice.value, int) and 0 <= x.slice.value < len(cur) - 1:
+                    res.append(cur[x.slice.value])
+                else:
+                    return None
+            return res
+        return None
+
+    for ds in (True, False):
+        for ns in (True, False):
+            cur = ["*args"]
+            result = None
+
+            def run(stmts):
+                nonlocal cur, result
+                for st in stmts:
+                    if isinstance(st, ast.Expr) and isinstance(st.value, ast.Constant):
+                        continue
+                    if isinstance(st, ast.Assign) and len(st.targets) == 1 and norm(st.targets[0]) == "args":
+                        v = ev_tuple(st.value, cur)
+                        if v is None or v.count("*args") != 1 or v[-1] != "*args":
+                            return f"unrecognised argument shuffling `{norm(st)}`"
+                        cur = v
+                    elif isinstance(st, ast.If):
+                        c = _inj_cond(st.test, [g, h])
+                        if c is None:
+                            return f"unrecognised condition `{norm(st.test)}`"
+                        val = (ds if c[0] == "ds" else ns) == c[1]
+                        r = run(st.body if val else st.orelse)
+                        if r:
+                            return r
+                        if result is not None:
+                            return None
+                    elif isinstance(st, ast.Return):
+                        v = st.value
+                        if isinstance(v, ast.Call) and norm(v.func) == "f" and len(v.args) == 1 and isinstance(v.args[0], ast.Starred) and norm(v.args[0].value) == "args" and len(v.keywords) == 1 and v.keywords[0].arg is None and norm(v.keywords[0].value) == "kwargs":
+                            result = list(cur)
+                            return None
+                        if isinstance(v, ast.Call) and norm(v.func) == "f" and all(k.arg is None for k in v.keywords):
+                            r = ev_tuple(ast.Tuple(elts=v.args, ctx=ast.Load()), cur)
+                            if r is not None:
+                                result = r
+                                return None
+                        return f"unrecognised forwarding `{norm(st)}`"
+                    else:
+                        return f"unrecognised statement `{norm(st)[:80]}`"
+                return None
+
+            r = run(g.node.body)
+            if r:
+                return r
+            if result is None:
+                return "the wrapper does not call the wrapped function on some path"
+            out[(ds, ns)] = result
+    return out
+
+
+def _registration_name(h):
+    """functions[<name of f without the q2_ prefix>] = g"""
+    P = "q2_"
+    var = None
+    for n in walk_own(h.node):
+        if isinstance(n, ast.Assign) and len(n.targets) == 1 and isinstance(n.targets[0], ast.Name) and norm(n.value) == "f.__name__":
+            var = n.targets[0].id
+    if var is None:
+        return False
+    stripped = False
+    for n in walk_own(h.node):
+        if isinstance(n, ast.Assign) and len(n.targets) == 1 and norm(n.targets[0]) == var and norm(n.value) != "f.__name__":
+            v = n.value
+            par = parent(n)
+            if isinstance(v, ast.Call) and norm(v.func) == f"{var}.removeprefix" and len(v.args) == 1 and isinstance(v.args[0], ast.Constant) and v.args[0].value == P:
+                stripped = True
+                continue
+            cut = isinstance(v, ast.Subscript) and norm(v.value) == var and isinstance(v.slice, ast.Slice) and isinstance(v.slice.lower, ast.Constant) and v.slice.lower.value == len(P) and v.slice.upper is None
+            test = norm(par.test) if isinstance(par, ast.If) and n in par.body else None
+            if cut and test in (f"{var}[:{len(P)}] == '{P}'", f"{var}.startswith('{P}')", f"'{P}' == {var}[:{len(P)}]"):
+                stripped = True
+                continue
+            return False
+    regs = [n for n in walk_own(h.node) if isinstance(n, ast.Assign) and len(n.targets) == 1 and isinstance(n.targets[0], ast.Subscript) and norm(n.targets[0].value) == "functions"]
+    return stripped and len(regs) == 1 and norm(regs[0].targets[0].slice) == var and norm(regs[0].value) == "g"
+
+
 def registry_rule(prog, rep):
     rep.rule("REGISTRY", "every registered query function takes its Datastore / TNamespace parameters first, in that order (the wrapper strips the injected arguments by position) and the wrappers forward all remaining positional arguments in order; qtypes lists exactly the subclasses of QToken, each defining check, parse and interpret")
     reg = prog.registry()
@@ -276,21 +432,39 @@ def registry_rule(prog, rep):
         rep.check(ok, "REGISTRY", fi.short, "injected parameters lead", f"{anns[:k]}", f"parameters annotated Datastore/TNamespace are not the leading parameters in that order ({list(zip(fi.params, anns))}): the wrapper strips by position, so arguments shift by one", fi.loc())
         decos = fi.decorators
         rep.check(len(decos) == 2 and decos[0].startswith("q2_function") and decos[1] == "q2_typecheck", "REGISTRY", fi.short, "decorators", f"{decos}", f"decorators are {decos} (registry wrapper outermost, typecheck inside)", fi.loc())
+    n_fw = 0
+    for fi in reg:
+        own = [p for p in fi.params if fi.annotations.get(p) not in ("Datastore", "TNamespace")]
+        rets = [r for r in walk_own(fi.node) if isinstance(r, ast.Return)]
+        if len(rets) != 1 or not isinstance(rets[0].value, ast.Call):
+            continue
+        c = rets[0].value
+        callees = [x for x in prog.resolve_call(c, fi) if x.cls is None]
+        if len(callees) != 1:
+            continue
+        cal = callees[0]
+        n_fw += 1
+        landed = {}
+        for i, a in enumerate(c.args):
+            if isinstance(a, ast.Name) and a.id in own and i < len(cal.params):
+                landed[a.id] = cal.params[i]
+        for k in c.keywords:
+            if k.arg and isinstance(k.value, ast.Name) and k.value.id in own:
+                landed[k.value.id] = k.arg
+        wrong = {p: q for p, q in landed.items() if p in cal.params and q != p}
+        rep.check(not wrong, "REGISTRY", fi.short, f"arguments of {cal.short}", f"{landed}", f"the built-in hands its argument(s) to the wrong parameter of {cal.short}: {wrong} (same-named parameters must receive the same-named arguments)", fi.loc(c))
+        unused = [p for p in own if not any(isinstance(x, ast.Name) and x.id == p for x in ast.walk(fi.node) if not isinstance(x, ast.arg))]
+        rep.check(not unused, "REGISTRY", fi.short, "all arguments used", "", f"argument(s) {unused} of the built-in are ignored", fi.loc())
+    rep.floor("single-call built-in wrappers", n_fw, 15)
     g = prog.func("q2_function.h.g")
-    t = [norm(s) for s in g.node.body if not (isinstance(s, ast.Expr) and isinstance(s.value, ast.Constant))]
-    import re as _re
-
-    okw = (
-        len(t) == 4
-        and t[0] == "args = (datastore, namespace, *args)"
-        and bool(_re.fullmatch(r"if TNamespace not in \(.*\.annotation for .* in sig\.parameters.*\): args = \(args\[0\], \*args\[2:\]\)", t[1]))
-        and bool(_re.fullmatch(r"if Datastore not in \(.*\.annotation for .* in sig\.parameters.*\): args = args\[1:\]", t[2]))
-        and t[3] == "return f(*args, **kwargs)"
-    )
-    rep.check(okw, "REGISTRY", g.short, "injection / stripping", "strip namespace (position 1) then datastore (position 0) when not annotated; forward the rest in order", f"the registry wrapper no longer forwards the arguments positionally as expected: {t}", g.loc())
     h = prog.func("q2_function.h")
-    th = norm(h.node)
-    ok = "fname = f.__name__" in th and "if fname[:3] == 'q2_': fname = fname[3:]" in th and "functions[fname] = g" in th
+    res = _wrapper_fold(g, h)
+    if isinstance(res, str):
+        rep.undecided("REGISTRY", g.short, "injection / stripping", res, g.loc())
+    else:
+        bad = [f"function wants (datastore={ds}, namespace={ns}) but is called with {got}" for (ds, ns), got in res.items() if got != (["datastore"] if ds else []) + (["namespace"] if ns else []) + ["*args"]]
+        rep.check(not bad, "REGISTRY", g.short, "injection / stripping", "for each of the four annotation cases the function receives [datastore if annotated] + [namespace if annotated] + the query's arguments in order", f"the registry wrapper no longer forwards the arguments positionally as expected: {bad}", g.loc(), expected="(datastore?, namespace?, *args)", found=str(res))
+    ok = _registration_name(h)
     rep.check(ok, "REGISTRY", h.short, "registration name", "function name without the q2_ prefix", "functions are not registered under their name without the q2_ prefix", h.loc())
     tg = prog.func("q2_typecheck.g")
     rets = [r for r in walk_own(tg.node) if isinstance(r, ast.Return)]
@@ -369,6 +543,10 @@ VARIANTS = [
     ("B token class missing from qtypes", Q2, "qtypes: Sequence[Type[QToken]] = [QString, QInteger, QFunction, QDict, QList, QVariable]", "qtypes: Sequence[Type[QToken]] = [QString, QInteger, QFunction, QList, QVariable]", "REGISTRY"),
     ("B variable tried before function", Q2, "qtypes: Sequence[Type[QToken]] = [QString, QInteger, QFunction, QDict, QList, QVariable]", "qtypes: Sequence[Type[QToken]] = [QString, QInteger, QVariable, QFunction, QDict, QList]", "REGISTRY"),
     ("B strip hoisted out of the dict entry loop", Q2, "        entries_str = string[1:-1]\n        d: Dict[str, QToken] = {}\n        while len(entries_str) > 0:\n            entries_str = entries_str.strip()\n", "        entries_str = string[1:-1].strip()\n        d: Dict[str, QToken] = {}\n        while len(entries_str) > 0:\n", "SPACING"),
+    ("B statement loop stops at RETURN", Q2, "            interpret(var, val, namespace, datastore)\n", "            interpret(var, val, namespace, datastore)\n            if var.name == \"RETURN\":\n                break\n", "ASSIGN"),
+    ("B non-empty statements starting with # skipped", Q2, "        if statement:\n", "        if statement and not statement.startswith(\"#\"):\n", "ASSIGN"),
+    ("B union_no_overlap arguments swapped", QF, "    return union_no_overlap(events1, events2)", "    return union_no_overlap(events2, events1)", "REGISTRY"),
+    ("B simplify ignores the key", QF, "    return simplify_string(events, key=key)", "    return simplify_string(events)", "REGISTRY"),
     ("OK slice spelled with a temporary-free expression", Q2, "        if to_consume != 0:\n            return None, string\n        return string[:i], string[i:]", "        if to_consume != 0:\n            return None, string\n        return (string[:i], string[i:])", "ok"),
     ("OK depth update spelled +=", Q2, "            elif char == \"]\":\n                to_consume = to_consume - 1\n            elif char == \"[\":\n                to_consume = to_consume + 1", "            elif char == \"]\":\n                to_consume -= 1\n            elif char == \"[\":\n                to_consume += 1", "ok"),
 ]
